@@ -12,6 +12,9 @@
    Eval c a l v is the relational semantics of Model/Sem.v ("gate l of c has value v under
    the assignment a"; three-valued, a may be partial).  The attached circuit `other` is not
    modified: the model is purely functional (and the harness compares its dump). *)
+(* the simple Circuit methods these theorems rest on are regenerated from the source (translator T9)
+   and proved equal to the model: keep those equality lemmas in this property's proof cone *)
+Require Cirbo.Proofs.CircuitCoreGen Cirbo.Proofs.CircuitCoreGen2.
 Require Import Cirbo.Model.Base Cirbo.Model.Gate Cirbo.Model.Circuit Cirbo.Model.Eval Cirbo.Model.Sem
         Cirbo.Model.Connect Cirbo.Model.History Cirbo.Model.WF.
 Require Import Cirbo.Proofs.WFEmplace Cirbo.Proofs.WFConnect1 Cirbo.Proofs.WFConnect2 Cirbo.Proofs.WFStep Cirbo.Proofs.WFSound Cirbo.Proofs.SemConnectStruct
